@@ -645,4 +645,175 @@ theorem generic_byLabel (p : α → Bool) (t : Tree α) (hg : (t.prune p).good =
   rw [hr, h1.1]
   exact ⟨rfl, h1.2⟩
 
+/-! ### consequences of monitor acceptance, in index form -/
+
+section consequences
+variable [DecidableEq α]
+
+/-- the log of every run is accepted by the monitor, and the returned value agrees with it -/
+theorem generic_accepted (v : Visitor α) (t : Tree α) :
+    ∃ r m, (generic v t).ret = some r ∧ replay v [] (generic v t).log Mon.init = some m ∧
+      m.must = none ∧ okRes r m := by
+  obtain ⟨m, hm, hmust, hb⟩ := steps_inv v (fuel t) _ (start_inv v t)
+  obtain ⟨r, hr⟩ := Option.isSome_iff_exists.1 (generic_terminates v t)
+  unfold generic at hr ⊢
+  simp only [hr] at hb
+  exact ⟨r, m, hr, hm, hmust, hb⟩
+
+theorem judgeRun_generic (v : Visitor α) (t : Tree α) (r : Result) (h : (generic v t).ret = some r) :
+    judgeRun v (generic v t).log r = none := by
+  obtain ⟨r', m, hr, hm, hmust, hok⟩ := generic_accepted v t
+  rw [h] at hr; cases hr
+  simp [judgeRun, hm, hmust, hok]
+
+theorem step_stop (m m' : Mon α) (a : Act) (e : Ev α) (h : m.step a e = some m')
+    (ha : a = .done ∨ a = .error) : m'.stopped = some a := by
+  unfold Mon.step at h
+  split at h
+  · cases h
+  · cases e with
+    | enter l =>
+      simp only at h; split at h
+      · cases h
+      · simp only [Option.some.injEq] at h; rw [← h]; rcases ha with rfl | rfl <;> rfl
+    | visit l =>
+      simp only at h; split at h
+      · cases h
+      · split at h
+        · split at h
+          · simp only [Option.some.injEq] at h; rw [← h]; rcases ha with rfl | rfl <;> rfl
+          · cases h
+        · cases h
+    | exit l =>
+      simp only at h
+      split at h
+      · split at h
+        · simp only [Option.some.injEq] at h; rw [← h]; rcases ha with rfl | rfl <;> rfl
+        · cases h
+      · cases h
+
+theorem step_consume (m m' : Mon α) (l : α) (e : Ev α) (h : m.step .consume e = some m')
+    (he : e = .enter l ∨ e = .visit l) : m'.must = some l := by
+  unfold Mon.step at h
+  split at h
+  · cases h
+  · rcases he with rfl | rfl
+    · simp only at h; split at h
+      · cases h
+      · simp only [Option.some.injEq] at h; rw [← h]; rfl
+    · simp only at h; split at h
+      · cases h
+      · split at h
+        · split at h
+          · simp only [Option.some.injEq] at h; rw [← h]; rfl
+          · cases h
+        · cases h
+
+theorem step_must (m m' : Mon α) (l : α) (a : Act) (e : Ev α) (hm : m.must = some l)
+    (h : m.step a e = some m') : e = .exit l := by
+  unfold Mon.step at h
+  split at h
+  · cases h
+  · cases e with
+    | enter l' => simp [hm] at h
+    | visit l' => simp [hm] at h
+    | exit l' =>
+      simp only at h
+      split at h
+      · split at h
+        · rename_i hc
+          rcases hc.2 with h2 | h2
+          · rw [hm] at h2; cases h2
+          · rw [hm] at h2; cases h2; rfl
+        · cases h
+      · cases h
+
+theorem replay_split (v : Visitor α) (pre post : List (Ev α)) (e : Ev α) (m : Mon α)
+    (h : replay v [] (pre ++ e :: post) Mon.init = some m) :
+    ∃ m1 m2, replay v [] pre Mon.init = some m1 ∧ m1.step (v (pre ++ [e])) e = some m2 ∧
+      replay v (pre ++ [e]) post m2 = some m := by
+  rw [replay_append] at h
+  cases h1 : replay v [] pre Mon.init with
+  | none => simp [h1] at h
+  | some m1 =>
+    simp only [h1, Option.bind_some, List.nil_append, replay] at h
+    cases h2 : m1.step (v (pre ++ [e])) e with
+    | none => simp [h2] at h
+    | some m2 => simp only [h2] at h; exact ⟨m1, m2, rfl, h2, h⟩
+
+/-- after a callback in which the visitor called SetDone/SetError there is no further event -/
+theorem stop_is_last (v : Visitor α) (pre post : List (Ev α)) (e : Ev α) (m : Mon α)
+    (h : replay v [] (pre ++ e :: post) Mon.init = some m)
+    (ha : v (pre ++ [e]) = .done ∨ v (pre ++ [e]) = .error) :
+    post = [] ∧ m.stopped = some (v (pre ++ [e])) := by
+  obtain ⟨m1, m2, _, h2, h3⟩ := replay_split v pre post e m h
+  have hs := step_stop m1 m2 _ e h2 ha
+  cases post with
+  | nil => simp only [replay, Option.some.injEq] at h3; rw [← h3]; exact ⟨rfl, hs⟩
+  | cons e' es => simp [replay, Mon.step, hs] at h3
+
+/-- after a callback Enter(l)/Visit(l) in which the visitor called Consume the next event is Exit(l) -/
+theorem consume_next_is_exit (v : Visitor α) (pre post : List (Ev α)) (e : Ev α) (l : α) (m : Mon α)
+    (h : replay v [] (pre ++ e :: post) Mon.init = some m) (hmust : m.must = none)
+    (ha : v (pre ++ [e]) = .consume) (he : e = .enter l ∨ e = .visit l) :
+    ∃ post', post = .exit l :: post' := by
+  obtain ⟨m1, m2, _, h2, h3⟩ := replay_split v pre post e m h
+  rw [ha] at h2
+  have hs := step_consume m1 m2 l e h2 he
+  cases post with
+  | nil => simp only [replay, Option.some.injEq] at h3; rw [← h3, hs] at hmust; cases hmust
+  | cons e' es =>
+    simp only [replay] at h3
+    simp only [List.append_assoc, List.cons_append, List.nil_append] at h3
+    cases h4 : m2.step (v (pre ++ [e, e'])) e' with
+    | none => simp [h4] at h3
+    | some m3 => exact ⟨es, by rw [step_must m2 m3 l _ e' hs h4]⟩
+
+/-- a visitor that never cancels leaves the monitor un-stopped -/
+theorem replay_never_stopped (v : Visitor α) (hv : ∀ h, v h ≠ .done ∧ v h ≠ .error) (seen L : List (Ev α))
+    (m m' : Mon α) (h : replay v seen L m = some m') (hm : m.stopped = none) : m'.stopped = none := by
+  induction L generalizing seen m with
+  | nil => simp only [replay, Option.some.injEq] at h; rw [← h]; exact hm
+  | cons e es ih =>
+    simp only [replay] at h
+    cases hs : m.step (v (seen ++ [e])) e with
+    | none => simp [hs] at h
+    | some m1 =>
+      simp only [hs] at h
+      refine ih _ _ h ?_
+      have hne := hv (seen ++ [e])
+      unfold Mon.step at hs
+      split at hs
+      · cases hs
+      · have haft : ∀ (m0 : Mon α) l b, m0.stopped = none → (m0.after (v (seen ++ [e])) l b).stopped = none := by
+          intro m0 l b h0
+          unfold Mon.after
+          cases hva : v (seen ++ [e]) with
+          | «continue» => exact h0
+          | consume => cases b <;> simpa using h0
+          | done => exact absurd hva hne.1
+          | error => exact absurd hva hne.2
+        cases e with
+        | enter l =>
+          simp only at hs; split at hs
+          · cases hs
+          · simp only [Option.some.injEq] at hs; rw [← hs]; exact haft _ _ _ hm
+        | visit l =>
+          simp only at hs; split at hs
+          · cases hs
+          · split at hs
+            · split at hs
+              · simp only [Option.some.injEq] at hs; rw [← hs]; exact haft _ _ _ hm
+              · cases hs
+            · cases hs
+        | exit l =>
+          simp only at hs
+          split at hs
+          · split at hs
+            · simp only [Option.some.injEq] at hs; rw [← hs]; exact haft _ _ _ hm
+            · cases hs
+          · cases hs
+
+end consequences
+
 end Dawgs.C11
